@@ -6,3 +6,7 @@ mod sys;
 pub fn process_memory(pid: u32) -> Result<Box<dyn FragmentedMemory>, ScanError> {
     sys::process_memory(pid)
 }
+
+#[cfg(all(boreal_verif, target_os = "linux"))]
+#[doc(hidden)]
+pub use sys::verif_process_memory;
